@@ -119,13 +119,14 @@ Definition pw_in_range (st en : option Z) (r : perow) : bool :=
   (match st with Some ws => pw_prefilter ws r && pw_window_start ws r | None => true end) &&
   (match en with Some we => pw_window_end we r | None => true end).
 
-(* the trimming loop of get_events; `e.timestamp = starttime` floors to the millisecond *)
+(* the trimming loop of get_events; `e.timestamp = starttime` floors to the millisecond;
+   the start-clipped duration is clamped at zero (fc100f3) *)
 Definition pw_clip (st en : option Z) (e : event) : event :=
   let e1 := match st with
             | Some ws => if ts e <? ws
                          then let e_end := ts e + dur e in
                               let t' := floor_ms ws in
-                              set_dur (set_ts e t') (e_end - t')
+                              set_dur (set_ts e t') (Z.max 0 (e_end - t'))
                          else e
             | None => e
             end in
